@@ -279,7 +279,7 @@ package vm
 //@ loop 6 invariant @C16 range.inv.values: forall j in 0..i :: isInt(elements[j]) && ival(elements[j]) == minI + j
 //@ loop 6 decreases @C09 l - i
 //@ loop 1 invariant @C07 run.inv.frame: runFrame(vm)
-//@ loop 1 invariant run.inv.fieldsfresh: fresh(vm.fields)
+//@ loop 1 invariant @C04 @C07 @C19 run.inv.fieldsfresh: fresh(vm.fields)
 //@ loop 1 invariant run.inv.stackfresh: fresh(vm.stack.entries)
 //@ loop 1 step @C02 step.nop: (op == code.OpNop || op == code.OpPlaceholder) ==> ip == old(ip) + 1 && stackSame(vm)
 //@ loop 1 step @C01 @C15 step.push: op == code.OpPush ==> ip == old(ip) + 3 && pushed1(vm) && topInt(vm, opArg) && fresh(top(vm))
